@@ -137,6 +137,12 @@ class RecValue:
             return f[name]
         raise AttributeError(name)
 
+    def __setattr__(self, name, value):
+        if name in ('cls', 'fields'):
+            self.__dict__[name] = value
+        else:
+            self.__dict__['fields'][name] = value
+
     def __repr__(self):
         return '%s(%s)' % (self.cls.__name__, ', '.join('%s=%r' % kv for kv in sorted(self.fields.items())))
 
@@ -147,7 +153,9 @@ class RecValue:
 def apply_contract(c, ip, f, args, kwargs):
     ctx = ip.ctx
     if c.call is not None or (c.result_is is None and c.returns is None):
-        return NotImplemented      # contract is phrased over ghost parameters: the callee body is used instead (inlined)
+        return NotImplemented
+    if c.pins and c.effective is None:
+        return NotImplemented      # open findings and no stated effective behaviour: use the callee body      # contract is phrased over ghost parameters: the callee body is used instead (inlined)
     try:
         ba = inspect.signature(f).bind(*args, **kwargs)
     except TypeError as e:
@@ -165,6 +173,8 @@ def apply_contract(c, ip, f, args, kwargs):
         ctx.oblige('%s#%s' % (ip.top_name, site), 'call-pre', t if not isinstance(t, bool) else z3.BoolVal(t),
                    {'callee': c.key})
         ctx.assume(t)
+    if c.effective is not None and c.pins:
+        return call_by_name(sub, c.effective, env)
     if c.result_is is not None:
         return call_by_name(sub, c.result_is, env)
     if c.returns is None:
@@ -562,8 +572,8 @@ def from_jsonable(v):
         return bytes.fromhex(v['bytes'])
     if isinstance(v, list):
         return [from_jsonable(x) for x in v]
-    if isinstance(v, dict) and 'object' in v:
-        return v
+    if isinstance(v, dict) and 'object' in v and 'fields' in v:
+        return RecValue(type(str(v['object']), (), {}), {k: from_jsonable(x) for k, x in v['fields'].items()})
     if isinstance(v, dict):
         return {k: from_jsonable(x) for k, x in v.items()}
     return v
@@ -572,7 +582,7 @@ def from_jsonable(v):
 # ---------------------------------------------------------------------------------------------------
 # native replay of a counterexample on the real function
 
-def replay_native(c, conc, warmup=None):
+def replay_native(c, conc, warmup=None, rng=None):
     """Run the real function on concrete inputs and evaluate the contract natively.
     Returns dict(confirmed=bool, observed=..., expected=...).
     `warmup`: another argument assignment; the function is first called once on the SAME receiver object with those
@@ -581,6 +591,11 @@ def replay_native(c, conc, warmup=None):
     rep = {}
     env = dict(conc)
     prepared = False
+    if c.init is not None and any(isinstance(v, RecValue) for v in env.values()):
+        try:
+            native_by_name(c.init, env)       # derived fields of record parameters (same text as in the symbolic run)
+        except Exception as e:
+            rep['init_error'] = repr(e)
     if warmup is not None and 'self' in env and c.build is None:
         try:
             if c.prepare is not None:
@@ -597,6 +612,11 @@ def replay_native(c, conc, warmup=None):
                 f(**kw)
             except Exception:
                 pass
+            if c.perturb is not None and rng is not None:
+                try:
+                    rep['perturbed'] = _short(c.perturb(env, rng))
+                except Exception as e:
+                    rep['perturb_error'] = repr(e)
             rep['warmup'] = _short({k: _jsonable(v) for k, v in warmup.items() if k != 'self'})
         except Exception as e:
             rep['warmup_error'] = repr(e)
@@ -683,4 +703,12 @@ def replay_native(c, conc, warmup=None):
             bad = True
             rep['expected'] = 'ensures raised %r' % e
     rep['confirmed'] = bad
+    if bad and c.pins:
+        for pid, pfn in c.pins.items():
+            try:
+                if native_by_name(pfn, penv):
+                    rep['pin'] = pid
+                    break
+            except Exception:
+                continue
     return rep
